@@ -2,6 +2,8 @@
 //! (`poulpy_bin_fhe::bdd_arithmetic::tests::test_suite::TestContext`: N=256, n_lwe=77, rank 2 …).
 //! stdin `id <op> k=v …`, stdout `id <answer>`.
 //!
+//! Every operation that encrypts words accepts `inb= ink=`: radix / precision of the INPUT words (default: the crate's test layout, radix 2^13);
+//! a small radix (`inb ≤ 9` at N = 256) sends `mod_switch_2n` of the circuit bootstrapping through its multi-limb branch.
 //! * `word be= op=<add|sub|sll|srl|sra|slt|sltu|and|or|xor|identity> a= b= threads=`:
 //!   encrypt a, b as packed `FheUint<u32>`, `prepare` both through circuit bootstrapping, apply the word
 //!   operation, decrypt: `ok <word>`.
@@ -119,6 +121,9 @@ macro_rules! backend_impl {
             }
 
             pub struct St {
+                /// radix / precision of the INPUT words (`inb=`, `ink=`; 0 = the crate's test layout)
+                pub inb: usize,
+                pub ink: usize,
                 pub cb: Option<CbCtx>,
                 pub tc: Tc,
                 pub xa: Source,
@@ -127,11 +132,15 @@ macro_rules! backend_impl {
             }
 
             pub fn new_st() -> St {
-                St { cb: None, tc: Tc::new(), xa: Source::new([42u8; 32]), xe: Source::new([43u8; 32]), scratch: ScratchOwned::alloc(1 << 24) }
+                St { inb: 0, ink: 0, cb: None, tc: Tc::new(), xa: Source::new([42u8; 32]), xe: Source::new([43u8; 32]), scratch: ScratchOwned::alloc(1 << 24) }
             }
 
             fn enc(st: &mut St, v: u32) -> FheUint<Vec<u8>, u32> {
-                let infos = st.tc.glwe_infos();
+                let mut infos = st.tc.glwe_infos();
+                if st.inb > 0 {
+                    infos.base2k = (st.inb as u32).into();
+                    infos.k = (st.ink as u32).into();
+                }
                 let e = EncryptionLayout::new_from_default_sigma(infos).unwrap();
                 let mut c: FheUint<Vec<u8>, u32> = FheUint::alloc_from_infos(&infos);
                 c.encrypt_sk(&st.tc.module, v, &st.tc.sk_glwe, &e, &mut st.xe, &mut st.xa, st.scratch.borrow());
@@ -180,6 +189,8 @@ macro_rules! backend_impl {
             }
 
             pub fn handle(st: &mut St, op: &str, t: &[&str]) -> String {
+                st.inb = kvn(t, "inb", 0) as usize;
+                st.ink = kvn(t, "ink", 24) as usize;
                 let a = kvn(t, "a", 0) as u32;
                 let b = kvn(t, "b", 0) as u32;
                 match op {
@@ -423,10 +434,14 @@ macro_rules! backend_impl {
                         }
                         let cx = st.cb.as_ref().unwrap();
                         let module = &cx.module;
-                        let mut pt_lwe: LWEPlaintext<Vec<u8>> = LWEPlaintext::alloc((CB_LWE_B as u32).into(), (ld as u32).into());
+                        let lweb = kvn(t, "lweb", CB_LWE_B as u64) as usize;
+                        let mut pt_lwe: LWEPlaintext<Vec<u8>> = LWEPlaintext::alloc((lweb as u32).into(), ((ld + 1) as u32).into());
                         pt_lwe.encode_i64(data, ((ld + 1) as u32).into());
-                        let lwe_enc = EncryptionLayout::new_from_default_sigma(cx.lwe_infos).unwrap();
-                        let mut ct_lwe: LWE<Vec<u8>> = LWE::alloc_from_infos(&cx.lwe_infos);
+                        let mut lwe_infos = cx.lwe_infos;
+                        lwe_infos.base2k = (lweb as u32).into();
+                        if lweb != CB_LWE_B { lwe_infos.k = ((22usize.div_ceil(lweb)) as u32 * lweb as u32).into(); }
+                        let lwe_enc = EncryptionLayout::new_from_default_sigma(lwe_infos).unwrap();
+                        let mut ct_lwe: LWE<Vec<u8>> = LWE::alloc_from_infos(&lwe_infos);
                         module.lwe_encrypt_sk(&mut ct_lwe, &pt_lwe, &cx.sk_lwe, &lwe_enc, &mut st.xe, &mut st.xa, st.scratch.borrow());
                         let mut res: GGSW<Vec<u8>> = GGSW::alloc_from_infos(&cx.ggsw_infos);
                         cx.key.execute_to_exponent(module, lgo, &mut res, &ct_lwe, ld, ext, st.scratch.borrow());
